@@ -28,6 +28,7 @@ structure Case where
   nans : List Bool := []
   schema : Option SchemaCase := none
   dict : Option DictCase := none
+  dicts : List DictCase := []
   deriving FromJson
 
 def optNames : Option (List String) → Json
@@ -84,8 +85,13 @@ def handle (line : String) : String :=
                     ("spec", toJson (specDictRowCells d.cols row)),
                     ("violated", toJson (if decide (H_dictOrder d.cols row) then ([] : List String) else ["H_dictOrder"]))]
       | none => Json.null
+    let dicts := c.dicts.map (fun d =>
+      let row : List (String × Nat) := d.keys.zipIdx
+      Json.mkObj [("model", toJson (dictRowCells d.cols row)),
+                  ("spec", toJson (specDictRowCells d.cols row)),
+                  ("violated", toJson (if decide (H_dictOrder d.cols row) then ([] : List String) else ["H_dictOrder"]))])
     Json.compress (Json.mkObj [
-      ("case", toJson c.case), ("quoted", toJson quoted), ("unq", toJson unq), ("tokOk", toJson tokOk),
+      ("case", toJson c.case), ("dicts", toJson dicts), ("quoted", toJson quoted), ("unq", toJson unq), ("tokOk", toJson tokOk),
       ("noNul", toJson noNul), ("sqlStrs", toJson sqlStrs), ("sqlIds", toJson sqlIds),
       ("unterminated", toJson unterminated), ("ints", toJson ints), ("kinds", toJson kinds), ("floats", toJson floats), ("nans", toJson nans),
       ("schema", schema), ("dict", dict)])
